@@ -133,6 +133,7 @@ def gen_case(rng):
     model = RM.CidModel(kind, fields, [], header, allowed=allowed, allowed_text=allowed_text)
     model.rec_checks = checks
     model.late_classes = False
+    model.allowed_below_fields = allowed is not None and rng.random() < 0.5
     table = []
     for r in range(rng.randint(0, 6) + header):
         row = []
@@ -176,6 +177,9 @@ def cid_rows(model, field_type="Rec", check_type="Rec"):
             row = list(row)
             row[5] = field_type
         rows.append(row)
+    if getattr(model, "allowed_below_fields", False):
+        # the same interface with the allowed characters declared below the fields they apply to
+        rows = [r for r in rows if not (r[0] == "D" and r[1] == "Allowed characters")] + [r for r in rows if r[0] == "D" and r[1] == "Allowed characters"]
     for c in model.rec_checks:
         rows.append(["C", c["desc"], check_type, c["behaviour"]])
     return rows
